@@ -566,6 +566,8 @@ class LFRicLoop(PSyLoop):
                 if (not arg.discontinuous and
                         self.kernel.iterates_over == "cell_column" and
                         self.kernel.all_updates_are_writes and
+                        self.field_space.orig_name not in
+                        const.VALID_DISCONTINUOUS_NAMES and
                         self._upper_bound_name == "ncells"):
                     # This is the special case of a kernel that guarantees to
                     # write the same value to any given dof, irrespective of
